@@ -116,6 +116,8 @@ struct Out {
     keep: Vec<RawPeer>,
     keepl: Vec<crate::world::RawListener>,
     lib_side: usize,
+    /// SUB: bystanders that were not sent a subscription made right after the victim's fault
+    late_sub_untold: Vec<usize>,
 }
 
 /// scripted REP bystanders answer every request they have received and not yet answered
@@ -275,6 +277,13 @@ fn cut_impl(ctx: &mut Ctx, connecting: bool) {
                 o2.borrow_mut().keep.push(victim);
             }
         }
+        // SUB: a subscription made right after the fault, before the socket has observed anything,
+        // goes to every other publisher (and one made after the observation as well)
+        let late_sub = disturbed && kind == Kind::Sub;
+        if late_sub {
+            let _ = sock.subscribe("late-1").await;
+            rt::count("probe_subscribed_right_after_the_fault");
+        }
         // the socket gets to observe the end: receive until idle; sending kinds try to send
         if heavy {
             rt::count("probe_publishing_heavily_right_after_the_fault");
@@ -340,7 +349,22 @@ fn cut_impl(ctx: &mut Ctx, connecting: bool) {
                 }
             }
         }
+        if late_sub {
+            let _ = sock.subscribe("late-2").await;
+        }
         rt::task::idle().await;
+        if late_sub {
+            for (b, p) in bys.iter().enumerate() {
+                let msgs = p.inbound().messages();
+                for t in [&b"late-1"[..], b"late-2"] {
+                    let mut want = vec![1u8];
+                    want.extend_from_slice(t);
+                    if !msgs.iter().any(|m| m.len() == 1 && m[0] == want) {
+                        o2.borrow_mut().late_sub_untold.push(b);
+                    }
+                }
+            }
+        }
         o2.borrow_mut().victim_tap_final = vconn.tap_len_from(lib_side);
         o2.borrow_mut().done = true;
         world::park().await;
@@ -373,6 +397,9 @@ fn cut_impl(ctx: &mut Ctx, connecting: bool) {
                     break;
                 }
             }
+        }
+        if let Some(b) = o.late_sub_untold.first() {
+            ctx.violation(&format!("others_affected:{}:{:?}", kind.name(), fault), format!("{tag}: the application subscribed right after the victim's connection ended and once more later; bystander {b}, whose connection is healthy, was not sent {} of these subscriptions", o.late_sub_untold.iter().filter(|x| *x == b).count()));
         }
         // at most one error for the event
         if o.errors_total > 1 {
